@@ -226,4 +226,82 @@ theorem indexOf_elm (bs : List DN) (hn : (elemIds bs).Nodup) (i : Nat) {m k} (h 
         simp only [indexOf, blockEq, beq_iff_eq, hne, if_false]
         rw [ih hn.2 i h]; simp
 
+mutual
+theorem elems_owner (n : DN) {p o} (hn : OK p o n) {e} (h : e ∈ elems n) : e.1.owner = o := by
+  match n with
+  | .text s => simp at h
+  | .el m bs =>
+    simp only [OK_el] at hn
+    simp only [elems_el, List.mem_cons] at h
+    cases h with
+    | inl h => subst h; exact hn.2.1
+    | inr h => exact elemsL_owner bs hn.2.2.2.2.2 h
+theorem elemsL_owner (l : List DN) {p o} (hn : OKL p o l) {e} (h : e ∈ elemsL l) : e.1.owner = o := by
+  match l with
+  | [] => simp at h
+  | b :: bs =>
+    simp only [OKL_cons] at hn
+    simp only [elemsL_cons, List.mem_append] at h
+    cases h with
+    | inl h => exact elems_owner b hn.1 h
+    | inr h => exact elemsL_owner bs hn.2 h
+end
+
+
+mutual
+theorem upd_out_mem (t f) (n : DN) {m bs} (h : find? t n = some (m, bs)) : ∀ x ∈ (f m bs).out, x ∈ (upd t f n).2 := by
+  match n with
+  | .text s => simp at h
+  | .el m' bs' =>
+    rw [find?_el] at h
+    rw [upd_el]
+    split at h
+    · rename_i he
+      simp only [Option.some.injEq, Prod.mk.injEq] at h
+      obtain ⟨rfl, rfl⟩ := h
+      rw [if_pos he]; exact fun x hx => hx
+    · rename_i he
+      rw [if_neg he]
+      exact updL_out_mem t f bs' h
+theorem updL_out_mem (t f) (l : List DN) {m bs} (h : findL? t l = some (m, bs)) : ∀ x ∈ (f m bs).out, x ∈ (updL t f l).2 := by
+  match l with
+  | [] => simp at h
+  | b :: l' =>
+    rw [findL?_cons] at h
+    intro x hx
+    rw [updL_cons]
+    split at h
+    · rename_i r hr
+      simp only [Option.some.injEq] at h
+      subst h
+      exact List.mem_append_left _ (upd_out_mem t f b hr x hx)
+    · exact List.mem_append_right _ (updL_out_mem t f l' h x hx)
+end
+
+theorem findL?_roots_OK (t) (l : List DN) (hl : ∀ r ∈ l, RootOK r) {m bs} (h : findL? t l = some (m, bs)) :
+    ∃ p o, OK p o (.el m bs) := by
+  induction l with
+  | nil => simp at h
+  | cons r rs ih =>
+    rw [findL?_cons] at h
+    split at h
+    · rename_i x hx
+      simp only [Option.some.injEq] at h
+      subst h
+      obtain ⟨m', bs', rfl, hk⟩ := hl r (by simp)
+      exact (find?_OK t _ hk hx).2
+    · exact ih (fun x hx => hl x (by simp [hx])) h
+
+theorem locRemoveChild_el (c : Nat) (m : Meta) (bs : List DN) (h : (locRemoveChild c m bs).2 = .el c) :
+    ∃ r, removeFirstEl c bs = some r ∧
+      (locRemoveChild c m bs).1 = some ⟨{ m with children := m.children.erase c }, r.2, [reown none (setParent none r.1)]⟩ := by
+  unfold locRemoveChild at h ⊢
+  by_cases hc : c ∈ m.children
+  · rw [if_pos hc] at h ⊢
+    cases hr : removeFirstEl c bs with
+    | none => rw [hr] at h; simp at h
+    | some r => exact ⟨r, rfl, rfl⟩
+  · rw [if_neg hc] at h; simp at h
+
+
 end AHP.Dom
